@@ -92,3 +92,7 @@ for _p in ("C02", "C11", "C12"):
     LEVEL_NOTE[_p] = _TREE_NOTE
     TECHNIQUE[_p] = "deterministic simulation of API-call histories on a population of tree tensor networks over shared basis objects with a dense reference model (seeded schedule search, ddmin replay)"
 LEVEL_NOTE["C12"] += "  Bounds are judged only for x = ||H|| dt in [0.02, 0.5]; constants were calibrated on the unchanged tree with >10x margin (max measured/allowed is recorded in the evidence)."
+
+LEVEL_TEXT["C05"] += " One run in three is a tree session: TTNS.compress with a bond limit (direct or via CompressConfig) judged by the same bounds over every edge of the tree."
+LEVEL_TEXT["C06"] += " One run in four is a tree session (TTNS arithmetic, compression, all four tree evolution schemes, purified states): dense weight outside the sector and the stored labels of every node are checked after every step."
+LEVEL_TEXT["C13"] += " One run in three is a tree session: TTNS/TTNO bystanders and inputs (incl. the input of TTNS.evolve and the scratch re-parenting inside expectation()) are re-checked after every step."
